@@ -4,6 +4,8 @@ CLUSTERS = {
     # name -> extraction file (coq/theories/Extract), extracted module, entry point
     "vals": {"extract": "ExtractVals.v", "ml": "model_vals", "entry": "main_vals"},
     "url": {"extract": "ExtractUrl.v", "ml": "model_url", "entry": "main_url"},
+    "codec": {"extract": "ExtractCodec.v", "ml": "model_codec", "entry": "main_codec"},
+    "expand": {"extract": "ExtractExpand.v", "ml": "model_expand", "entry": "main_expand"},
 }
 
 COMMON_TB = [
